@@ -89,7 +89,7 @@ def base_case(rng, family, ty=None):
     ty = ty or rng.choice(TYPES)
     n = rng.randint(2, 6)
     return {"family": family, "ty": ty, "n": n,
-            "labels": "int" if ty in MATRIX else rng.choice(Labels.STYLES),
+            "labels": "int" if ty in MATRIX else rng.choice(Labels.STYLES_X),
             "num": rng.choice(["int", "frac", "float"]), "vnum": rng.choice(["int", "frac", "float", "mixed"])}
 
 
